@@ -38,3 +38,20 @@ PROPS["C03"] = dict(
     assumptions=ASSUME_COMMON + ["64-bit ChaCha20/Salsa20 counters wrap modulo 2^64 (model choice; all backends agree)",
                                  "keys/nonces/messages not enumerated come from a splitmix64 stream seeded by VERIF_SEED"],
 )
+
+PROPS["C15"] = dict(
+    name="c15", sources=["props/c15.cpp"], engine="enumerator",
+    builds=[("asan", "native")],
+    builds_thorough=[("asan", "native"), ("asan", "portable"), ("plain", "native")],
+    level="exploration",
+    rule=("Encoding: every length 0..72 x 5 content classes x {hex, 4 Base64 variants} x capacity {exact, +1, +9} plus all 65536 two-byte values, each with "
+          "decode(encode(x))==x at exact capacity. Decoding: EXHAUSTIVE all texts of length 0..2 over all 256 byte values, length 3 over a 40-symbol and length 4 over an "
+          "11-symbol alphabet containing every character class (alphabet, other-variant, '=', ignore chars, NUL, >=0x80), for each codec x ignore {NULL,\" \\n\",\":\"} x "
+          "end pointer {NULL, given}; mutated valid encodings of every length 0..40 (truncation at every position, foreign char inserted/substituted at every position, "
+          "ignore char at every position, padding +1/+2/-1/removed, trailing space/newline/alphabet/NUL, leading space, non-zero trailing bits, other alphabet, other variant, "
+          "upper-case hex) at every output capacity 0..needed+1. Oracle: ref/codecs.hpp strict decoder (return code, *bin_len, *end, bytes, no write past capacity via ASan-poisoned exact buffers). "
+          "Non-trivial = text length >= 1 containing at least one alphabet character; distinct = (codec, text, capacity, ignore, end, mutation)."),
+    exhaustive_axes="all texts of length <= 2 over 256 byte values; lengths 3/4 over reduced alphabets; every capacity 0..needed+1; every mutation position",
+    assumptions=ASSUME_COMMON + ["An ignore character between the two digits of a hex pair is treated as unspecified (documentation says 'any location', implementation skips only between pairs)",
+                                 "after a failed decode only the return value and memory safety are asserted (contents of *bin_len / *end / buffer unspecified)"],
+)
